@@ -24,21 +24,24 @@ FILE_VARIANTS = {
     "exec": ("md5", H1, (1, True)),
     "legacy": ("md5-dos2unix", H1, (1, False)),
     "ino": ("md5", H1, (1, False, 77)),   # h1 replaced atomically: only the inode differs
+    "h1up": ("md5", H1.upper(), (1, False)),   # another object: the same hex digits in upper case
+    # a file whose digest is the raw digest of the directory {x: h1} (its content is that listing's JSON)
+    "rawdir": ("md5", ref.tree_oid({"x": H1})[: -len(".dir")], (1, False)),
 }
 
 
 def universe(tier):
     if tier == "thorough":
         return {
-            "top": ["h1", "h2", "nohash", "nometa", "exec", "legacy", "ino"],
+            "top": ["h1", "h2", "nohash", "nometa", "exec", "legacy", "ino", "rawdir", "h1up"],
             "child": ["h1", "h2", "nohash", "nometa", "exec", "ino"],
-            "b": ["h1", "h2", "nohash", "exec"],
+            "b": ["h1", "h2", "nohash", "exec", "h1up"],
             "nest": True,
         }
     return {
-        "top": ["h1", "h2", "nohash", "exec", "ino"],
+        "top": ["h1", "h2", "nohash", "exec", "ino", "rawdir"],
         "child": ["h1", "h2", "nometa", "ino"],
-        "b": ["h1", "h2"],
+        "b": ["h1", "h2", "h1up"],
         "nest": False,
     }
 
